@@ -6,13 +6,37 @@ from core import Case, MARK
 
 BINOPS = ["+", "-", "*", "/", "DIV", "MOD", "&", "=", "<>", "<", "<=", ">", ">=", "AND", "OR"]
 
-def segments(out):
-    """REPL stdout -> per-entry output (prompts removed)"""
+def continuation_counts(stdin):
+    """number of continuation lines ('. ' prompts) of each REPL entry, from the session's input"""
+    from profiles import is_block_start
+    L = stdin.split(b"\n")
+    if L and L[-1] == b"": L = L[:-1]
+    ks = []; i = 0
+    while i < len(L):
+        line = L[i]; i += 1
+        k = 0
+        if line not in (b"", b"?", b"EXIT") and not line.startswith(b"RUNFILE") and is_block_start(line):
+            while i < len(L):
+                k += 1; i += 1
+                if L[i - 1] == b"": break
+        ks.append(k)
+        if line == b"EXIT": break
+    return ks
+
+def segments(out, stdin=None):
+    """REPL stdout -> per-entry output (prompts removed). With the session's stdin the prompts are removed exactly
+    (one '> ' and one '. ' per continuation line); without it every leading '> ' / '. ' is removed."""
     segs = out.split(MARK)
     res = []
-    for s in segs:
-        while s.startswith(b"> ") or s.startswith(b". "):
-            s = s[2:]
+    ks = continuation_counts(stdin) if stdin is not None else None
+    for j, s in enumerate(segs):
+        if ks is None:
+            while s.startswith(b"> ") or s.startswith(b". "):
+                s = s[2:]
+        else:
+            if s.startswith(b"> "): s = s[2:]
+            for _ in range(ks[j] if j < len(ks) else 0):
+                if s.startswith(b". "): s = s[2:]
         res.append(s)
     return res
 
